@@ -9,7 +9,7 @@ impl<'a> Node<'a> {
     /// the NODE children as `Children::rem()` presents them (a function of the node)
     pub uninterp spec fn node_kids(&self) -> Seq<UNode>;
     #[verifier::external_body]
-    pub fn children(&self) -> (r: Children<'a>) ensures r.all() == self.kids(), r.rem() == self.node_kids() { unimplemented!() }
+    pub fn children(&self) -> (r: Children<'a>) ensures r.all() == self.kids(), r.rem() == self.node_kids(), r.nodes_left() == self.node_seq() { unimplemented!() }
 }
 /// the first non-token among `s` and what follows it
 pub open spec fn first_node<'a>(s: Seq<Node<'a>>) -> Option<(Node<'a>, Seq<Node<'a>>)>
@@ -31,5 +31,27 @@ impl<'a> Children<'a> {
         ensures
             first_node(old(self).all()) matches Some(p) ==> r == Some(p.0) && final(self).all() == p.1,
             first_node(old(self).all()) is None ==> r is None,
+    { unimplemented!() }
+}
+/// `Children::skip_tokens()`: the iterator over the children that are not tokens
+#[verifier::external_body]
+pub struct SkipTokens<'a> { _p: &'a u8 }
+impl<'a> Node<'a> {
+    /// the children that are not tokens, in order
+    pub uninterp spec fn node_seq(&self) -> Seq<Node<'a>>;
+}
+impl<'a> Children<'a> {
+    /// the non-token children still to come
+    pub uninterp spec fn nodes_left(&self) -> Seq<Node<'a>>;
+    #[verifier::external_body]
+    pub fn skip_tokens(self) -> (r: SkipTokens<'a>) ensures r.rem() == self.nodes_left() { unimplemented!() }
+}
+impl<'a> SkipTokens<'a> {
+    pub uninterp spec fn rem(&self) -> Seq<Node<'a>>;
+    #[verifier::external_body]
+    pub fn next(&mut self) -> (r: Option<Node<'a>>)
+        ensures
+            old(self).rem().len() == 0 ==> r is None && final(self).rem() == old(self).rem(),
+            old(self).rem().len() > 0 ==> r == Some(old(self).rem()[0]) && final(self).rem() == old(self).rem().skip(1),
     { unimplemented!() }
 }
